@@ -901,3 +901,194 @@ Proof.
       * apply S3.
     + intros _ _ Hc. discriminate.
 Qed.
+
+Lemma step_ok s e :
+  SInv s -> SInv (stepF s e) /\ (RegAll s -> alloc_ok s e = true -> RegAll (stepF s e)).
+Proof.
+  intros S. unfold step. destruct (torn s) eqn:Ht.
+  - apply SInv_set_bad'. exact S.
+  - destruct (step1_ok s e S Ht) as [S1 R1].
+    destruct (dangling (step1 true true s e)).
+    + destruct (SInv_set_bad _ S1) as [S2 R2]. split; [exact S2|]. intros R C. apply R2, R1; assumption.
+    + split; assumption.
+Qed.
+
+Lemma run_snoc h e : runF (h ++ [e]) = stepF (runF h) e.
+Proof. unfold run. rewrite fold_left_app. reflexivity. Qed.
+
+Lemma all_from_snoc c h e s :
+  all_from true true c s (h ++ [e]) = all_from true true c s h && c (fold_left stepF h s) e.
+Proof.
+  revert s. induction h as [|a h IH]; intros s; simpl.
+  - rewrite andb_true_r. reflexivity.
+  - rewrite IH. rewrite andb_assoc. reflexivity.
+Qed.
+
+Lemma run_inv h : SInv (runF h).
+Proof.
+  induction h as [|e h IH] using rev_ind.
+  - apply SInv_init.
+  - rewrite run_snoc. apply step_ok. exact IH.
+Qed.
+
+Lemma run_regall h : no_alloc_in_stop_window true true h = true -> RegAll (runF h).
+Proof.
+  induction h as [|e h IH] using rev_ind; intros Hc.
+  - apply SInv_init.
+  - unfold no_alloc_in_stop_window in Hc. rewrite all_from_snoc in Hc. apply andb_true_iff in Hc.
+    destruct Hc as [Hc1 Hc2]. rewrite run_snoc. apply step_ok; [apply run_inv | apply IH; exact Hc1 | exact Hc2].
+Qed.
+
+Lemma stop_ok_alloc_ok s e : stop_ok s e = true -> alloc_ok s e = true.
+Proof.
+  unfold stop_ok, alloc_ok. destruct (running s); simpl; auto.
+  destruct e as [[| |] ? ? ? ?| | | | | |]; auto.
+Qed.
+
+Lemma all_from_weaken (c1 c2 : st -> ev -> bool) :
+  (forall s e, c1 s e = true -> c2 s e = true) ->
+  forall h s, all_from true true c1 s h = true -> all_from true true c2 s h = true.
+Proof.
+  intros Hc. induction h as [|e h IH]; intros s H; simpl in *; auto.
+  apply andb_true_iff in H. destruct H as [H1 H2]. rewrite (Hc _ _ H1). simpl. apply IH. exact H2.
+Qed.
+
+Lemma stop_clean_alloc_clean h :
+  no_alloc_or_del_in_stop_window true true h = true -> no_alloc_in_stop_window true true h = true.
+Proof. apply all_from_weaken. apply stop_ok_alloc_ok. Qed.
+
+(* ------------------------------------------------------------------ the theorems *)
+(* T1: whatever the history (any interleaving, any sweep order, any marks, collector running or
+   stopped, misuse flagged instead of executed): no object's destructor runs twice, and memory is
+   released exactly as often as the destructor ran. *)
+Theorem finalised_at_most_once h x :
+  fin_count (runF h) x <= 1 /\ free_count (runF h) x = fin_count (runF h) x.
+Proof.
+  destruct (g_rest _ _ (si_g _ (run_inv h)) x (fun f => f)) as [H1 H2]. split; [exact H2 | exact H1].
+Qed.
+
+(* fuel adequacy: the recursion of destructors through owning Boxes always terminates within
+   the fuel the machine supplies, and no sweep is left unfinished *)
+Theorem fuel_adequate h : oof (runF h) = false /\ pend (runF h) = [].
+Proof. split; [apply (si_oof _ (run_inv h)) | apply (si_pend _ (run_inv h))]. Qed.
+
+Lemma log_set_bad s : log (set_bad s) = log s. Proof. reflexivity. Qed.
+
+Lemma done_step_of_step1 s e x : torn s = false -> done (step1 true true s e) x -> done (stepF s e) x.
+Proof.
+  intros Ht Hd. unfold step. rewrite Ht. destruct (dangling (step1 true true s e)); exact Hd.
+Qed.
+
+(* T2: an explicit del / del_root (collector running) or del_raw finalises the object, once, now *)
+Theorem explicit_delete_finalises h k o :
+  no_alloc_in_stop_window true true h = true ->
+  torn (runF h) = false -> live (runF h) o = true -> kind_of (runF h) o = Some k ->
+  (k = KRaw \/ running (runF h) = true) ->
+  done (runF (h ++ [EDel k o])) o.
+Proof.
+  intros Hc Ht Hlive Hk Hrun. rewrite run_snoc.
+  pose proof (run_inv h) as S. pose proof (run_regall h Hc) as R.
+  set (s := runF h) in *. apply done_step_of_step1; [exact Ht|].
+  pose proof (si_g _ S) as G. pose proof (si_pend _ S) as Hpe.
+  cbn [step1]. rewrite Hlive, Hk. simpl andb.
+  assert (Hkk : kind_eqb k k = true) by (destruct k; reflexivity). rewrite Hkk.
+  destruct (live_spec _ _ Hlive) as [Hf0 Hinf].
+  assert (Hreg : k <> KRaw -> In o (regids s)).
+  { intros Hne. unfold kind_of in Hk. destruct (info s o) as [[k' b']|] eqn:Hi; [|discriminate].
+    simpl in Hk. inversion Hk; subst k'. apply (R Ht o k b' Hi Hne Hf0). }
+  destruct k.
+  - destruct Hrun as [Hrun|Hrun]; [discriminate|].
+    destruct (gc_rem_ok _ _ (finalise_ok (fuel_of s)) [] s o G ltac:(unfold fuel_of, measure; lia)) as (_ & _ & Hd).
+    apply Hd; [exact Hrun | left; apply Hreg; discriminate].
+  - destruct Hrun as [Hrun|Hrun]; [discriminate|].
+    destruct (gc_rem_ok _ _ (finalise_ok (fuel_of s)) [] s o G ltac:(unfold fuel_of, measure; lia)) as (_ & _ & Hd).
+    apply Hd; [exact Hrun | left; apply Hreg; discriminate].
+  - assert (Hno : ~ In o (regids s)).
+    { intros Hin. unfold regids in Hin. apply in_map_iff in Hin. destruct Hin as [[y r] [Hy Hin]]. simpl in Hy. subst y.
+      destruct (si_reginfo _ S o r Hin) as [b' Hb']. unfold kind_of in Hk. rewrite Hb' in Hk. simpl in Hk. destruct r; discriminate. }
+    assert (Hnp : ~ In o (pids s)) by (unfold pids; rewrite Hpe; intros []).
+    destruct (finalise_ok (fuel_of s) [] s o G Hno Hnp Hf0 Hinf ltac:(unfold fuel_of, measure; lia)) as (_ & _ & Hd).
+    exact Hd.
+Qed.
+
+(* T3: teardown (thread exit, Cello_Exit) leaves no managed object behind: each one has been
+   finalised exactly once, by a collection, a del, an owning Box, or now *)
+Theorem teardown_complete h order x b :
+  no_alloc_in_stop_window true true h = true ->
+  torn (runF h) = false -> info (runF h) x = Some (KManaged, b) ->
+  done (runF (h ++ [ETeardown order])) x.
+Proof.
+  intros Hc Ht Hi. rewrite run_snoc.
+  pose proof (run_inv h) as S. pose proof (run_regall h Hc) as R.
+  set (s := runF h) in *. apply done_step_of_step1; [exact Ht|].
+  pose proof (si_g _ S) as G. pose proof (si_pend _ S) as Hpe.
+  cbn [step1].
+  destruct (sweep_ok order [] s G Hpe) as (G3 & P3 & E3 & Hdead).
+  assert (Hd : done (sweep true true order [] s) x).
+  { destruct (Nat.eq_dec (fin_count s x) 0) as [Hz|Hnz].
+    - apply Hdead.
+      + apply (R Ht x KManaged b Hi); [discriminate | exact Hz].
+      + apply is_root_false; [exact S | exists b; exact Hi].
+      + intros [].
+    - apply (e_done _ _ E3). destruct (g_rest _ _ G x (fun f => f)) as [H1 H2]. unfold done. lia. }
+  exact Hd.
+Qed.
+
+(* ------------------------------------------------------------------ refutations (pinned code, stop window) *)
+(* D18: the pinned GC_Rem_Ptr only clears the pending entry.  Box 1 owns object 2, both become
+   unreachable, the sweep meets the Box first: object 2 is never finalised, not even at teardown. *)
+Definition d18_history : list ev :=
+  [ENew KManaged true 1 [] []; ENew KManaged false 2 [] [1]; ELink 1 (Some 2); ECollect [1; 2] []; ETeardown []].
+
+Theorem lifecycle_d18_refuted_pinned :
+  let s := run false false d18_history in
+  no_alloc_or_del_in_stop_window false false d18_history = true /\ bad s = false /\ torn s = true /\
+  info s 2 = Some (KManaged, false) /\ fin_count s 2 = 0 /\ free_count s 2 = 0.
+Proof. vm_compute. repeat split; reflexivity. Qed.
+
+(* the same history on the repaired machine *)
+Example d18_history_repaired :
+  let s := runF d18_history in bad s = false /\ fin_count s 1 = 1 /\ fin_count s 2 = 1 /\ free_count s 2 = 1.
+Proof. vm_compute. repeat split; reflexivity. Qed.
+
+(* only GC_Rem_Ptr repaired, the sweep still calls the destructor before clearing the entry: a Box
+   that owns itself is finalised twice *)
+Definition selfbox_history : list ev := [ENew KManaged true 1 [] []; ELink 1 (Some 1); ECollect [] []].
+
+Theorem lifecycle_sweep_order_refuted_half_repair :
+  let s := run true false selfbox_history in bad s = false /\ fin_count s 1 = 2 /\ free_count s 1 = 2.
+Proof. vm_compute. repeat split; reflexivity. Qed.
+
+Example selfbox_history_repaired :
+  let s := runF selfbox_history in bad s = false /\ fin_count s 1 = 1 /\ free_count s 1 = 1.
+Proof. vm_compute. repeat split; reflexivity. Qed.
+
+(* F2 (open finding): an object allocated in a stop window is never registered; del is a no-op
+   while stopped; the object is left behind at teardown.  The hypothesis of T2/T3 is needed. *)
+Definition stop_window_history : list ev :=
+  [EStop; ENew KManaged false 1 [] []; EDel KManaged 1; EStart; ETeardown []].
+
+Theorem lifecycle_stop_window_refuted :
+  let s := runF stop_window_history in
+  no_alloc_in_stop_window true true stop_window_history = false /\ bad s = false /\ torn s = true /\
+  info s 1 = Some (KManaged, false) /\ fin_count s 1 = 0.
+Proof. vm_compute. repeat split; reflexivity. Qed.
+
+(* ------------------------------------------------------------------ non-vacuity *)
+(* a history with Boxes, a root, a raw object, a clean stop window and collections satisfies the
+   hypotheses of T2 and T3 *)
+Definition sample_history : list ev :=
+  [ENew KManaged true 1 [] []; ENew KManaged false 2 [] [1]; ELink 1 (Some 2);
+   ENew KRoot true 3 [] [1; 2]; ENew KManaged false 4 [] [1; 2; 3]; ELink 3 (Some 4);
+   EStop; ENew KRaw false 5 [] []; EDel KRaw 5; EStart;
+   ENew KManaged true 7 [] [1; 2; 3; 4]; ENew KManaged false 8 [] [1; 2; 3; 4; 7]; ELink 7 (Some 8);
+   ECollect [4; 7; 3; 8; 2; 1] [1; 2; 4]; ENew KManaged false 6 [] [1; 2; 4]].
+
+Example sample_history_ok :
+  let s := runF sample_history in
+  no_alloc_or_del_in_stop_window true true sample_history = true /\
+  no_alloc_in_stop_window true true sample_history = true /\
+  torn s = false /\ bad s = false /\ running s = true /\
+  live s 1 = true /\ kind_of s 1 = Some KManaged /\ info s 6 = Some (KManaged, false) /\
+  live s 3 = true /\ kind_of s 3 = Some KRoot /\ fin_count s 7 = 1 /\ fin_count s 8 = 1.
+Proof. vm_compute. repeat split; reflexivity. Qed.
